@@ -203,6 +203,27 @@ def runOrderL (ds : List NodeD) (order : List Nat) (l : LHeap) : LHeap :=
 def seqRun (p : Program) (cfg : Cfg) (H : BodyFn) : Heap :=
   runOrder (nodeDs p cfg H) (List.range (allInstances p).length) initHeap
 
+/-- `(j, f, i, sf)`: data flow `f` of node `j` reads the copy passed by flow `sf` of node `i` (its first active input
+    names that task) -/
+def flowSources (p : Program) (cfg : Cfg) : List (Nat × Nat × Nat × Nat) :=
+  let insts := allInstances p
+  (enumFrom 0 (insts.zip (nodeFlows p cfg))).flatMap fun x =>
+    match p.classes[x.2.1.cls]? with
+    | none => []
+    | some cl =>
+      (enumFrom 0 (cl.flows.zip x.2.2)).filterMap fun y =>
+        if y.2.2.reads && y.2.2.copy.isSome then
+          match firstActive p.globals x.2.1.env y.2.1 with
+          | some (.task sc sf args) => ((srcInstance p x.2.1.env sc args).bind (ixOf insts)).map fun i => (x.1, y.1, i, sf)
+          | _ => none
+        else none
+
+/-- decidable validity condition "named values": in the sequential execution every input fed by a task holds what that
+    task left in the named flow (false when a third task legitimately updates the copy in between) -/
+def namedOKB (p : Program) (cfg : Cfg) (H : BodyFn) : Bool :=
+  let h := runOrderL (nodeDs p cfg H) (List.range (allInstances p).length) []
+  (flowSources p cfg).all fun q => h.get (.obs q.1 q.2.1) == h.get (.out q.2.2.1 q.2.2.2)
+
 /-- the nodes of a trace in the order of their completions -/
 def endOrder (log : List Dataflow.Ev) : List Nat := log.filterMap fun e => match e with | .end_ i => some i | _ => none
 
